@@ -238,6 +238,8 @@ def run(chk, db):
     messages(chk, db, 'MSG')
     tsrules.noexcept_rule(chk, db, 'NX', ('nop::Optional', 'nop::Result', 'nop::Entry'), minimum=4,
                           text='members of Optional / Result / Entry declared noexcept call nothing that may throw (probe element types have throwing copy and move operations)')
+    tsrules.copy_not_hijacked(chk, db, 'CH', ('nop::Optional', 'nop::Result', 'nop::Variant', 'nop::Entry'), minimum=10,
+                              text='constructing an Optional / Entry / Result / Variant from an object of its own class (non-const lvalues included) resolves to the copy / move constructor, never to a converting or forwarding template')
     from .. import witness
     witness.run(chk, 'c13_moves.cpp', 'MVW', 'compile-time witnesses: move construction / move assignment / converting move assignment of Optional, Entry, '
                 'whole tables, Result and Variant compile for a move-only element type (so overload resolution selects the rvalue overloads)', minimum=5)
